@@ -388,6 +388,7 @@ type RunRes struct {
 	Stdout string
 	Stderr string
 	Code   int
+	Raw    string // stdout exactly as written (Stdout has colour codes removed)
 }
 
 var ansiRe = regexp.MustCompile("\x1b\\[[0-9;]*m")
@@ -458,7 +459,7 @@ func runGoitOnce(goit, dir, home string, tzOffset int, args []string, extraEnv .
 	var so, se bytes.Buffer
 	cmd.Stdout, cmd.Stderr = &so, &se
 	err := cmd.Run()
-	r := RunRes{Stdout: stripANSI(so.String()), Stderr: se.String()}
+	r := RunRes{Stdout: stripANSI(so.String()), Stderr: se.String(), Raw: so.String()}
 	if ctx.Err() == context.DeadlineExceeded {
 		r.Class = "hang"
 		return r, true
